@@ -63,6 +63,9 @@ pub struct LayoutObs {
     pub outstanding_after_drop: Vec<(u64, u64)>,
     pub anomalies: Vec<String>,
     pub mmap_calls: u64,
+    /// the entry holds the whole replacement (no branch, no mapping kept)
+    #[serde(default)]
+    pub in_place: bool,
     pub mmap_granted: u64,
     pub munmaps: u64,
     pub first_hints: Vec<u64>,
@@ -215,6 +218,16 @@ pub fn execute(c: &LayoutCase) -> LayoutObs {
                     }
                 }
             }
+            if o.decoded_tramp.is_none() && live.is_empty() {
+                // nothing kept and no branch at the entry: the entry itself may be the whole stub
+                // (a forced boolean written in place); the call decides
+                let full = x86_follow(&m, addr as u64, &[targets::f_u1 as fn() -> u64 as usize as u64], 6);
+                if matches!(full.end, X86End::Ret { rax: Some(_), .. } | X86End::Unknown { .. } | X86End::HopLimit) {
+                    o.in_place = true;
+                    crate::worker::phase("call");
+                    o.call_value = Some((t.call)());
+                }
+            }
             crate::worker::phase("drop");
             let _ = std::panic::catch_unwind(std::panic::AssertUnwindSafe(|| ip::sut(|| drop(inj))));
             let evs = ip::log_take();
@@ -305,8 +318,10 @@ pub fn judge(rec: &mut Recorder, c: &LayoutCase, ex: Exec, _hello: &Value) -> Re
         }
     } else {
         rec.count("installed", 1);
-        let Some(tr) = o.decoded_tramp else {
-            return rec.fail(&sig("entry-not-a-branch"), format!("entry does not decode to a branch: {}; case {c:?}", o.decode));
+        let tr = match o.decoded_tramp {
+            Some(tr) => tr,
+            None if o.in_place => 0,
+            None => return rec.fail(&sig("entry-not-a-branch"), format!("entry does not decode to a branch: {}; case {c:?}", o.decode)),
         };
         // whatever the installation keeps must be within range of the target (a placement that
         // was tried and is out of range must have been given back), and the entry must branch
@@ -318,7 +333,7 @@ pub fn judge(rec: &mut Recorder, c: &LayoutCase, ex: Exec, _hello: &Value) -> Re
         }
         // (an installation that keeps no mapping may branch straight to the fake: then the call
         // below decides)
-        let straight = o.outstanding_after_install.is_empty() && o.mmap_granted == o.munmaps;
+        let straight = o.in_place || (o.outstanding_after_install.is_empty() && o.mmap_granted == o.munmaps);
         if !straight && !o.outstanding_after_install.iter().any(|(ta, tl)| tr >= *ta && tr < ta + (*tl).max(1).max(4096)) {
             return rec.fail(&sig("branch-misses-trampoline"), format!("entry branches to {tr:#x}, which is not inside a mapping the injector kept ({:x?}); case {c:?}", o.outstanding_after_install));
         }
